@@ -132,6 +132,8 @@ impl SendBufferPool {
       "SendBufferPool: Registered {} send buffers ({} bytes each).",
       count, capacity_per_buffer
     );
+    #[cfg(rzmq_verif)]
+    crate::verif::uring::send_pool(free_ids.len(), slots.len());
     Ok(Self {
       inner: Mutex::new(SendBufferPoolInner {
         pool: slots,
@@ -159,6 +161,8 @@ impl SendBufferPool {
     }
 
     if let Some(buffer_id) = inner_guard.free_ids.pop_front() {
+      #[cfg(rzmq_verif)]
+      crate::verif::uring::send_pool(inner_guard.free_ids.len(), inner_guard.pool.len());
       let slot = &mut inner_guard.pool[buffer_id.0 as usize];
 
       if data_to_copy.len() > slot.capacity() {
@@ -169,6 +173,8 @@ impl SendBufferPool {
           slot.capacity()
         );
         inner_guard.free_ids.push_front(buffer_id); // Put it back, it's still free
+        #[cfg(rzmq_verif)]
+        crate::verif::uring::send_pool(inner_guard.free_ids.len(), inner_guard.pool.len());
         return None;
       }
 
@@ -193,6 +199,8 @@ impl SendBufferPool {
   pub fn acquire_lease(self: &Arc<Self>) -> Option<SendBufferLease> {
     let mut inner = self.inner.lock();
     if let Some(id) = inner.free_ids.pop_front() {
+      #[cfg(rzmq_verif)]
+      crate::verif::uring::send_pool(inner.free_ids.len(), inner.pool.len());
       let slot = &mut inner.pool[id.0 as usize];
       slot.in_kernel_use = true;
       Some(SendBufferLease {
@@ -239,6 +247,8 @@ impl SendBufferPool {
         id
       );
     }
+    #[cfg(rzmq_verif)]
+    crate::verif::uring::send_pool(inner_guard.free_ids.len(), inner_guard.pool.len());
   }
 
   /// Unregisters all buffers from io_uring. Called on UringWorker shutdown.
